@@ -1,6 +1,6 @@
 (* C06 — cancelling a pending async acquisition leaves no trace. *)
 From Coq Require Import List Arith ZArith.
-From LK Require Import AList Model Inv StepInv NoPanic PropLemmas Seq.
+From LK Require Import AList Model Inv StepInv NoPanic PropLemmas Seq DropInv Stream SeqRefine SeqLimit Conc.
 Import ListNotations.
 
 (* A pending async_lock (queued or already handed the key) can be dropped in every reachable state:
@@ -48,6 +48,18 @@ Proof. intros c s k H. exact (quiescent_keys s k (reachable_inv c s H)). Qed.
 
 (* The probe scenario P1 (holder of a valueless key releases while an async_lock is pending, then the
    future is dropped): the placeholder is gone, the count is 0, consuming works. *)
+(* "The same lasting effect as never having made the call", step by step and under every interleaving: a by-key
+   acquisition without limit touches the plain map + locked set of C05 only in the one step that announces its guard.
+   Every other step it ever makes -- the look-up of an existing entry, a failed try, queueing behind a holder, the
+   clean-up, the cancellation and the critical section after it -- leaves every value, the set of guards and the guard
+   names exactly as they were, in every state (no invariant needed).  A call that is cancelled never makes the
+   announcing step: nothing it did is visible there. *)
+Theorem C06_cancelled_call_is_invisible_to_map_and_locks : forall c s a p l s' o,
+  aget a (s_ops s) = Some p -> by_key_pc p = true -> own_label a l -> step c s l = ROk s' o ->
+  (forall g k v, o <> OGuard g k v) ->
+  s_guards s' = s_guards s /\ s_gid s' = s_gid s /\ (forall k, vof s' k = vof s k).
+Proof. exact lock_call_invisible_until_it_gets_its_guard. Qed.
+
 Example C06_witness :
   run (mkCfg false)
     [LStart 0 (CLock ShTry 1 None); LResume 0 []; LStart 1 (CLock ShAsync 1 None); LResume 1 [1]; LResume 1 [1];
